@@ -28,19 +28,130 @@ theorem loadNode_saveNode (bucket : Nat) (n : Node) (rest : List Int)
     have h2 : ¬ ((ls ++ rest).length < bucket) := by simp [List.length_append]; omega
     simp [← hl]
 
+/-- the non-negative child pointers of a node, in the order `Load` claims them -/
+def kids : Node → List Int
+  | .inner _ _ _ c0 _ _ c1 => (if c0 < 0 then [] else [c0]) ++ (if c1 < 0 then [] else [c1])
+  | .leaf _ => []
+
+/-- all child pointers of a file, in file order -/
+def children : List Node → List Int
+  | [] => []
+  | n :: ns => kids n ++ children ns
+
+theorem claim_ok {used : List Int} {c : Int} (h : 0 ≤ c → c ∉ used) :
+    claim used c = some ((if c < 0 then [] else [c]) ++ used) := by
+  unfold claim
+  by_cases hc : c < 0
+  · simp [hc]
+  · have := h (by omega)
+    simp [hc, this]
+
+theorem claim_some {used u : List Int} {c : Int} (h : claim used c = some u) :
+    (0 ≤ c → c ∉ used) ∧ u = (if c < 0 then [] else [c]) ++ used := by
+  unfold claim at h
+  by_cases hc : c < 0
+  · simp [hc] at h; subst h; exact ⟨by omega, by simp [hc]⟩
+  · by_cases hu : c ∈ used
+    · simp [hc, hu] at h
+    · simp [hc, hu] at h
+      subst h
+      exact ⟨fun _ => hu, by simp [hc]⟩
+
+/-- `Load` accepts the child pointers of a node iff they are new and (if both present) different -/
+theorem claimNode_ok {used : List Int} {n : Node} (hn : (kids n).Nodup) (hd : ∀ c ∈ kids n, c ∉ used) :
+    ∃ u, claimNode used n = some u ∧ ∀ x, x ∈ u ↔ x ∈ kids n ∨ x ∈ used := by
+  cases n with
+  | leaf ls => exact ⟨used, rfl, by simp [kids]⟩
+  | inner v lo0 up0 c0 lo1 up1 c1 =>
+    simp only [kids] at hn hd
+    simp only [claimNode]
+    have h0 : 0 ≤ c0 → c0 ∉ used := fun h => hd c0 (by simp; left; omega)
+    rw [claim_ok h0]
+    have h1 : 0 ≤ c1 → c1 ∉ (if c0 < 0 then [] else [c0]) ++ used := by
+      intro h hm
+      rcases List.mem_append.mp hm with hm | hm
+      · by_cases hc0 : c0 < 0
+        · simp [hc0] at hm
+        · have hc1 : ¬ c1 < 0 := by omega
+          simp only [hc0, if_false, List.mem_singleton] at hm
+          subst hm
+          simp [hc1] at hn
+      · exact hd c1 (by simp; right; omega) hm
+    simp only []
+    rw [claim_ok h1]
+    refine ⟨_, rfl, ?_⟩
+    intro x
+    simp only [kids, List.mem_append]
+    constructor
+    · rintro (h | h | h)
+      · exact Or.inl (Or.inr h)
+      · exact Or.inl (Or.inl h)
+      · exact Or.inr h
+    · rintro ((h | h) | h)
+      · exact Or.inr (Or.inl h)
+      · exact Or.inl h
+      · exact Or.inr (Or.inr h)
+
+theorem claimNode_some {used u : List Int} {n : Node} (h : claimNode used n = some u) :
+    (kids n).Nodup ∧ (∀ c ∈ kids n, c ∉ used) ∧ ∀ x, x ∈ u ↔ x ∈ kids n ∨ x ∈ used := by
+  cases n with
+  | leaf ls => simp only [claimNode, Option.some.injEq] at h; subst h; simp [kids]
+  | inner v lo0 up0 c0 lo1 up1 c1 =>
+    simp only [claimNode] at h
+    cases h0 : claim used c0 with
+    | none => rw [h0] at h; cases h
+    | some u0 =>
+      rw [h0] at h
+      simp only [] at h
+      obtain ⟨a0, rfl⟩ := claim_some h0
+      obtain ⟨a1, rfl⟩ := claim_some h
+      simp only [kids]
+      refine ⟨?_, ?_, ?_⟩
+      · by_cases hc0 : c0 < 0 <;> by_cases hc1 : c1 < 0 <;> simp [hc0, hc1]
+        intro e; subst e
+        exact a1 (by omega) (by simp [hc0])
+      · intro c hc hu
+        rcases List.mem_append.mp hc with hc | hc
+        · by_cases hc0 : c0 < 0
+          · simp [hc0] at hc
+          · simp only [hc0, if_false, List.mem_singleton] at hc; subst hc; exact a0 (by omega) hu
+        · by_cases hc1 : c1 < 0
+          · simp [hc1] at hc
+          · simp only [hc1, if_false, List.mem_singleton] at hc; subst hc
+            exact a1 (by omega) (List.mem_append.mpr (Or.inr hu))
+      · intro x
+        simp only [List.mem_append]
+        constructor
+        · rintro (h | h | h)
+          · exact Or.inl (Or.inr h)
+          · exact Or.inl (Or.inl h)
+          · exact Or.inr h
+        · rintro ((h | h) | h)
+          · exact Or.inr (Or.inl h)
+          · exact Or.inl h
+          · exact Or.inr (Or.inr h)
+
 theorem loadNodes_saveNodes (bucket : Nat) (numpoints : Int) (extra : List Int) :
-    ∀ (ns : List Node) (i : Nat), NodesOK bucket numpoints i ns →
-      loadNodes bucket numpoints ns.length i (saveNodes ns ++ extra) = .ok ns := by
+    ∀ (ns : List Node) (i : Nat) (used : List Int), NodesOK bucket numpoints i ns →
+      (children ns).Nodup → (∀ c ∈ children ns, c ∉ used) →
+      loadNodes bucket numpoints ns.length i used (saveNodes ns ++ extra) = .ok ns := by
   intro ns
   induction ns with
-  | nil => intro i _; simp [loadNodes]
+  | nil => intro i used _ _ _; simp [loadNodes]
   | cons n ns ih =>
-    intro i h
+    intro i used h hnd hdis
     obtain ⟨⟨hc, hl⟩, hrest⟩ := h
+    simp only [children, List.nodup_append] at hnd
+    obtain ⟨hk, hcs, hkc⟩ := hnd
+    obtain ⟨u, hu, hmem⟩ := claimNode_ok (used := used) hk (fun c hc => hdis c (by simp [children, hc]))
     simp only [List.length_cons, loadNodes, saveNodes, List.append_assoc]
     rw [loadNode_saveNode bucket n _ hl]
-    simp only [hc, Bool.not_true]
-    rw [ih (i + 1) hrest]
+    simp only [hc, Bool.not_true, hu]
+    rw [ih (i + 1) u hrest hcs (by
+      intro c hc hcu
+      rcases (hmem c).mp hcu with h | h
+      · exact hkc c h c hc rfl
+      · exact hdis c (by simp [children, hc]) h)]
     simp
 
 /-- a tree as `Save` writes it and `Load` accepts it -/
@@ -50,10 +161,12 @@ structure WellFormed (maxbucket : Int) (t : Tree) : Prop where
   size : (t.nodes.length : Int) ≤ t.numpoints
   cost : 0 ≤ t.cost
   nodes : NodesOK t.bucket.toNat t.numpoints 0 t.nodes
+  /-- no node is the child of two parents (or twice the child of one): demanded by `Load` since fix 90dea91 -/
+  noshare : (children t.nodes).Nodup
 
 theorem load_save (realspec maxbucket : Int) (t : Tree) (extra : List Int) (h : WellFormed maxbucket t) :
     load realspec maxbucket (save realspec t ++ extra) = .ok t := by
-  obtain ⟨h1, h2, h3, h4, h5⟩ := h
+  obtain ⟨h1, h2, h3, h4, h5, h6⟩ := h
   simp only [save, List.cons_append, List.nil_append, load]
   have hv : ¬ (version != version) = true := by simp
   have hr : ¬ (realspec != realspec) = true := by simp
@@ -62,20 +175,21 @@ theorem load_save (realspec maxbucket : Int) (t : Tree) (extra : List Int) (h : 
     simp [h3]
   have hc : (decide (0 ≤ t.cost)) = true := by simp [h4]
   simp only [hv, hr, hb, hs, hc, if_false, Bool.not_true, Bool.false_eq_true]
-  have := loadNodes_saveNodes t.bucket.toNat t.numpoints extra t.nodes 0 h5
+  have := loadNodes_saveNodes t.bucket.toNat t.numpoints extra t.nodes 0 [] h5 h6 (by simp)
   simp only [Int.toNat_natCast]
   rw [this]
 
 /-- every node list accepted by `loadNodes` satisfies `Node::Check` with the node's own position as the bound on the
     child pointers -/
 theorem loadNodes_ok (bucket : Nat) (numpoints : Int) :
-    ∀ (m i : Nat) (toks : List Int) (ns : List Node), loadNodes bucket numpoints m i toks = .ok ns →
-      ns.length = m ∧ ∀ j (n : Node), ns[j]? = some n → nodeCheck numpoints ((i + j : Nat) : Int) n = true := by
+    ∀ (m i : Nat) (used : List Int) (toks : List Int) (ns : List Node), loadNodes bucket numpoints m i used toks = .ok ns →
+      ns.length = m ∧ (∀ j (n : Node), ns[j]? = some n → nodeCheck numpoints ((i + j : Nat) : Int) n = true) ∧
+      (children ns).Nodup ∧ ∀ c ∈ children ns, c ∉ used := by
   intro m
   induction m with
-  | zero => intro i toks ns h; simp [loadNodes] at h; subst h; simp
+  | zero => intro i used toks ns h; simp [loadNodes] at h; subst h; simp [children]
   | succ m ih =>
-    intro i toks ns h
+    intro i used toks ns h
     simp only [loadNodes] at h
     split at h
     · cases h
@@ -85,20 +199,68 @@ theorem loadNodes_ok (bucket : Nat) (numpoints : Int) :
       · rename_i hck
         split at h
         · cases h
-        · rename_i ns' hns
-          cases h
-          obtain ⟨hlen, hall⟩ := ih (i + 1) rest ns' hns
-          refine ⟨by simp [hlen], ?_⟩
-          intro j n hj
-          cases j with
-          | zero =>
-            simp at hj; subst hj
-            simpa using hck
-          | succ j =>
-            simp at hj
-            have := hall j n hj
-            have e : i + 1 + j = i + (j + 1) := by omega
-            rw [e] at this; exact this
+        · rename_i used' hcl
+          split at h
+          · cases h
+          · rename_i ns' hns
+            cases h
+            obtain ⟨hlen, hall, hnd, hdis⟩ := ih (i + 1) used' rest ns' hns
+            obtain ⟨hk, hku, hmem⟩ := claimNode_some hcl
+            refine ⟨by simp [hlen], ?_, ?_, ?_⟩
+            · intro j n hj
+              cases j with
+              | zero =>
+                simp at hj; subst hj
+                simpa using hck
+              | succ j =>
+                simp at hj
+                have := hall j n hj
+                have e : i + 1 + j = i + (j + 1) := by omega
+                rw [e] at this; exact this
+            · simp only [children, List.nodup_append]
+              refine ⟨hk, hnd, ?_⟩
+              intro a ha b hb e
+              subst e
+              exact hdis a hb ((hmem a).mpr (Or.inl ha))
+            · intro c hc
+              simp only [children, List.mem_append] at hc
+              rcases hc with hc | hc
+              · exact hku c hc
+              · intro hu; exact hdis c hc ((hmem c).mpr (Or.inr hu))
+
+
+theorem kids_mem_children {ns : List Node} {j : Nat} {n : Node} {c : Int} (hj : ns[j]? = some n) (hc : c ∈ kids n) :
+    c ∈ children ns := by
+  induction ns generalizing j with
+  | nil => simp at hj
+  | cons m ms ih =>
+    cases j with
+    | zero => simp at hj; subst hj; simp [children, hc]
+    | succ j => simp at hj; simp [children, ih hj]
+
+/-- if the child list of a file has no duplicates, a node index named as a child has a unique parent -/
+theorem parent_unique {ns : List Node} (hnd : (children ns).Nodup) {j1 j2 : Nat} {n1 n2 : Node} {c : Int}
+    (h1 : ns[j1]? = some n1) (h2 : ns[j2]? = some n2) (c1 : c ∈ kids n1) (c2 : c ∈ kids n2) : j1 = j2 := by
+  induction ns generalizing j1 j2 with
+  | nil => simp at h1
+  | cons m ms ih =>
+    simp only [children, List.nodup_append] at hnd
+    obtain ⟨_, hms, hdis⟩ := hnd
+    cases j1 with
+    | zero =>
+      cases j2 with
+      | zero => rfl
+      | succ j2 =>
+        simp at h1 h2; subst h1
+        exact absurd rfl (hdis c c1 c (kids_mem_children h2 c2))
+    | succ j1 =>
+      cases j2 with
+      | zero =>
+        simp at h1 h2; subst h2
+        exact absurd rfl (hdis c c2 c (kids_mem_children h1 c1))
+      | succ j2 =>
+        simp at h1 h2
+        rw [ih hms h1 h2]
 
 /-! ## insertion sort on `Int`, `k` smallest -/
 
@@ -1661,24 +1823,32 @@ def NodesRange : List Node → Prop
   | n :: ns => NodeRange n ∧ NodesRange ns
 
 theorem loadNodesBin_saveNodesBin (bucket : Nat) (numpoints : Int) (extra : List Nat) :
-    ∀ (ns : List Node) (i : Nat), NodesOK bucket numpoints i ns → NodesRange ns →
-      loadNodesBin bucket numpoints ns.length i (saveNodesBin ns ++ extra) = .ok ns := by
+    ∀ (ns : List Node) (i : Nat) (used : List Int), NodesOK bucket numpoints i ns → NodesRange ns →
+      (children ns).Nodup → (∀ c ∈ children ns, c ∉ used) →
+      loadNodesBin bucket numpoints ns.length i used (saveNodesBin ns ++ extra) = .ok ns := by
   intro ns
   induction ns with
-  | nil => intro i _ _; simp [loadNodesBin]
+  | nil => intro i used _ _ _ _; simp [loadNodesBin]
   | cons n ns ih =>
-    intro i h hr
+    intro i used h hr hnd hdis
     obtain ⟨⟨hc, hl⟩, hrest⟩ := h
+    simp only [children, List.nodup_append] at hnd
+    obtain ⟨hk, hcs, hkc⟩ := hnd
+    obtain ⟨u, hu, hmem⟩ := claimNode_ok (used := used) hk (fun c hc => hdis c (by simp [children, hc]))
     simp only [List.length_cons, loadNodesBin, saveNodesBin, List.append_assoc]
     rw [loadNodeBin_saveNodeBin bucket n _ hl hr.1]
-    simp only [hc, Bool.not_true]
-    rw [ih (i + 1) hrest hr.2]
+    simp only [hc, Bool.not_true, hu]
+    rw [ih (i + 1) u hrest hr.2 hcs (by
+      intro c hc hcu
+      rcases (hmem c).mp hcu with h | h
+      · exact hkc c h c hc rfl
+      · exact hdis c (by simp [children, hc]) h)]
     simp
 
 theorem loadBin_saveBin (realspec maxbucket : Int) (t : Tree) (extra : List Nat) (h : WellFormed maxbucket t)
     (hrs : In32 realspec) (hnp : In32 t.numpoints) (hcost : In32 t.cost) (hmb : In32 maxbucket) (hr : NodesRange t.nodes) :
     loadBin realspec maxbucket (saveBin realspec t ++ extra) = .ok t := by
-  obtain ⟨h1, h2, h3, h4, h5⟩ := h
+  obtain ⟨h1, h2, h3, h4, h5, h6⟩ := h
   unfold loadBin saveBin
   have hm : ((magic ++ encInts 4 [version, realspec, t.bucket, t.numpoints, (t.nodes.length : Int), t.cost] ++ saveNodesBin t.nodes ++ extra).take 16 != magic) = false := by
     simp [magic]
@@ -1702,7 +1872,7 @@ theorem loadBin_saveBin (realspec maxbucket : Int) (t : Tree) (extra : List Nat)
   have hs : ((0 : Int) ≤ (t.nodes.length : Int) && (t.nodes.length : Int) ≤ t.numpoints) = true := by simp [h3]
   have hc : (decide (0 ≤ t.cost)) = true := by simp [h4]
   simp only [hv, hr', hb, hs, hc, if_false, Bool.not_true, Bool.false_eq_true]
-  have := loadNodesBin_saveNodesBin t.bucket.toNat t.numpoints extra t.nodes 0 h5 hr
+  have := loadNodesBin_saveNodesBin t.bucket.toNat t.numpoints extra t.nodes 0 [] h5 hr h6 (by simp)
   simp only [Int.toNat_natCast]
   rw [this]
 
